@@ -98,6 +98,8 @@ Inductive crit :=
 
 Record state := {
   mv : loc -> nat -> option entry;
+  hist : loc -> nat -> nat -> option val;  (* ghost: value written at l by (tx, incarnation); append-only *)
+  edom : nat -> list loc;                  (* ghost: locations at which tx j may have an entry *)
   st : nat -> status;
   inc : nat -> nat;
   cs : nat -> option crit;
@@ -117,52 +119,58 @@ Record state := {
 }.
 
 Definition init : state := {|
-  mv := fun _ _ => None; st := fun _ => Initial; inc := fun _ => 0; cs := fun _ => None;
+  mv := fun _ _ => None; hist := fun _ _ _ => None; edom := fun _ => []; st := fun _ => Initial; inc := fun _ => 0; cs := fun _ => None;
   res := fun _ => None; clock := 1; lower := fun _ => 0; unconf := fun _ => 0;
   fidx := 0; carried := 0; fpub := 0; cidx := 0; ctaken := None; cpub := 0; outs := [];
   aborted := None; finished := false |}.
 
 (* record update helpers *)
-Definition set_mv s f := {| mv := f; st := st s; inc := inc s; cs := cs s; res := res s; clock := clock s;
+Definition set_mv s f := {| mv := f; hist := hist s; edom := edom s; st := st s; inc := inc s; cs := cs s; res := res s; clock := clock s;
   lower := lower s; unconf := unconf s; fidx := fidx s; carried := carried s; fpub := fpub s; cidx := cidx s;
   ctaken := ctaken s; cpub := cpub s; outs := outs s; aborted := aborted s; finished := finished s |}.
-Definition set_st s f := {| mv := mv s; st := f; inc := inc s; cs := cs s; res := res s; clock := clock s;
+Definition set_hist s h := {| mv := mv s; hist := h; edom := edom s; st := st s; inc := inc s; cs := cs s; res := res s; clock := clock s;
   lower := lower s; unconf := unconf s; fidx := fidx s; carried := carried s; fpub := fpub s; cidx := cidx s;
   ctaken := ctaken s; cpub := cpub s; outs := outs s; aborted := aborted s; finished := finished s |}.
-Definition set_inc s f := {| mv := mv s; st := st s; inc := f; cs := cs s; res := res s; clock := clock s;
+Definition set_edom s d := {| mv := mv s; hist := hist s; edom := d; st := st s; inc := inc s; cs := cs s; res := res s; clock := clock s;
   lower := lower s; unconf := unconf s; fidx := fidx s; carried := carried s; fpub := fpub s; cidx := cidx s;
   ctaken := ctaken s; cpub := cpub s; outs := outs s; aborted := aborted s; finished := finished s |}.
-Definition set_cs s f := {| mv := mv s; st := st s; inc := inc s; cs := f; res := res s; clock := clock s;
+Definition set_st s f := {| mv := mv s; hist := hist s; edom := edom s; st := f; inc := inc s; cs := cs s; res := res s; clock := clock s;
   lower := lower s; unconf := unconf s; fidx := fidx s; carried := carried s; fpub := fpub s; cidx := cidx s;
   ctaken := ctaken s; cpub := cpub s; outs := outs s; aborted := aborted s; finished := finished s |}.
-Definition set_res s f := {| mv := mv s; st := st s; inc := inc s; cs := cs s; res := f; clock := clock s;
+Definition set_inc s f := {| mv := mv s; hist := hist s; edom := edom s; st := st s; inc := f; cs := cs s; res := res s; clock := clock s;
   lower := lower s; unconf := unconf s; fidx := fidx s; carried := carried s; fpub := fpub s; cidx := cidx s;
   ctaken := ctaken s; cpub := cpub s; outs := outs s; aborted := aborted s; finished := finished s |}.
-Definition set_clock s c := {| mv := mv s; st := st s; inc := inc s; cs := cs s; res := res s; clock := c;
+Definition set_cs s f := {| mv := mv s; hist := hist s; edom := edom s; st := st s; inc := inc s; cs := f; res := res s; clock := clock s;
   lower := lower s; unconf := unconf s; fidx := fidx s; carried := carried s; fpub := fpub s; cidx := cidx s;
   ctaken := ctaken s; cpub := cpub s; outs := outs s; aborted := aborted s; finished := finished s |}.
-Definition set_lower s f := {| mv := mv s; st := st s; inc := inc s; cs := cs s; res := res s; clock := clock s;
+Definition set_res s f := {| mv := mv s; hist := hist s; edom := edom s; st := st s; inc := inc s; cs := cs s; res := f; clock := clock s;
+  lower := lower s; unconf := unconf s; fidx := fidx s; carried := carried s; fpub := fpub s; cidx := cidx s;
+  ctaken := ctaken s; cpub := cpub s; outs := outs s; aborted := aborted s; finished := finished s |}.
+Definition set_clock s c := {| mv := mv s; hist := hist s; edom := edom s; st := st s; inc := inc s; cs := cs s; res := res s; clock := c;
+  lower := lower s; unconf := unconf s; fidx := fidx s; carried := carried s; fpub := fpub s; cidx := cidx s;
+  ctaken := ctaken s; cpub := cpub s; outs := outs s; aborted := aborted s; finished := finished s |}.
+Definition set_lower s f := {| mv := mv s; hist := hist s; edom := edom s; st := st s; inc := inc s; cs := cs s; res := res s; clock := clock s;
   lower := f; unconf := unconf s; fidx := fidx s; carried := carried s; fpub := fpub s; cidx := cidx s;
   ctaken := ctaken s; cpub := cpub s; outs := outs s; aborted := aborted s; finished := finished s |}.
-Definition set_unconf s f := {| mv := mv s; st := st s; inc := inc s; cs := cs s; res := res s; clock := clock s;
+Definition set_unconf s f := {| mv := mv s; hist := hist s; edom := edom s; st := st s; inc := inc s; cs := cs s; res := res s; clock := clock s;
   lower := lower s; unconf := f; fidx := fidx s; carried := carried s; fpub := fpub s; cidx := cidx s;
   ctaken := ctaken s; cpub := cpub s; outs := outs s; aborted := aborted s; finished := finished s |}.
-Definition set_fin s fi ca := {| mv := mv s; st := st s; inc := inc s; cs := cs s; res := res s; clock := clock s;
+Definition set_fin s fi ca := {| mv := mv s; hist := hist s; edom := edom s; st := st s; inc := inc s; cs := cs s; res := res s; clock := clock s;
   lower := lower s; unconf := unconf s; fidx := fi; carried := ca; fpub := fpub s; cidx := cidx s;
   ctaken := ctaken s; cpub := cpub s; outs := outs s; aborted := aborted s; finished := finished s |}.
-Definition set_fpub s v := {| mv := mv s; st := st s; inc := inc s; cs := cs s; res := res s; clock := clock s;
+Definition set_fpub s v := {| mv := mv s; hist := hist s; edom := edom s; st := st s; inc := inc s; cs := cs s; res := res s; clock := clock s;
   lower := lower s; unconf := unconf s; fidx := fidx s; carried := carried s; fpub := v; cidx := cidx s;
   ctaken := ctaken s; cpub := cpub s; outs := outs s; aborted := aborted s; finished := finished s |}.
-Definition set_commit s ci tk o := {| mv := mv s; st := st s; inc := inc s; cs := cs s; res := res s; clock := clock s;
+Definition set_commit s ci tk o := {| mv := mv s; hist := hist s; edom := edom s; st := st s; inc := inc s; cs := cs s; res := res s; clock := clock s;
   lower := lower s; unconf := unconf s; fidx := fidx s; carried := carried s; fpub := fpub s; cidx := ci;
   ctaken := tk; cpub := cpub s; outs := o; aborted := aborted s; finished := finished s |}.
-Definition set_cpub s v := {| mv := mv s; st := st s; inc := inc s; cs := cs s; res := res s; clock := clock s;
+Definition set_cpub s v := {| mv := mv s; hist := hist s; edom := edom s; st := st s; inc := inc s; cs := cs s; res := res s; clock := clock s;
   lower := lower s; unconf := unconf s; fidx := fidx s; carried := carried s; fpub := fpub s; cidx := cidx s;
   ctaken := ctaken s; cpub := v; outs := outs s; aborted := aborted s; finished := finished s |}.
-Definition set_aborted s a := {| mv := mv s; st := st s; inc := inc s; cs := cs s; res := res s; clock := clock s;
+Definition set_aborted s a := {| mv := mv s; hist := hist s; edom := edom s; st := st s; inc := inc s; cs := cs s; res := res s; clock := clock s;
   lower := lower s; unconf := unconf s; fidx := fidx s; carried := carried s; fpub := fpub s; cidx := cidx s;
   ctaken := ctaken s; cpub := cpub s; outs := outs s; aborted := a; finished := finished s |}.
-Definition set_finished s := {| mv := mv s; st := st s; inc := inc s; cs := cs s; res := res s; clock := clock s;
+Definition set_finished s := {| mv := mv s; hist := hist s; edom := edom s; st := st s; inc := inc s; cs := cs s; res := res s; clock := clock s;
   lower := lower s; unconf := unconf s; fidx := fidx s; carried := carried s; fpub := fpub s; cidx := cidx s;
   ctaken := ctaken s; cpub := cpub s; outs := outs s; aborted := aborted s; finished := true |}.
 
@@ -201,12 +209,6 @@ Definition dirty (s : state) (o : owes) : owes :=
   end.
 
 Definition ws_locs (ws : list (loc * val)) : list loc := map fst ws.
-
-Fixpoint ws_find (l : loc) (ws : list (loc * val)) : option val :=
-  match ws with
-  | [] => None
-  | (l', v) :: ws' => if Nat.eqb l l' then Some v else ws_find l ws'
-  end.
 
 Definition old_ws (s : state) (j : nat) : list loc :=
   match res s j with Some r => rws r | None => [] end.
@@ -253,12 +255,13 @@ Section Step.
 Variable b : block.
 
 Definition do_xclaim s j stc n : option state :=
+  guard (Nat.ltb j (ntx b)) (
   guard (match cs s j with None => true | Some _ => false end) (
   guard (status_eqb stc (st s j) && Nat.eqb n (inc s j)) (
   match stc with
   | Initial | Conflict => Some (set_inc (set_st s (upd (st s) j Executing)) (upd (inc s) j (S (inc s j))))
   | _ => Some s
-  end)).
+  end))).
 
 Definition do_xbegin s j n : option state :=
   match cs s j, tx_at b j with
@@ -314,11 +317,14 @@ Definition do_xpublish s j l n v est : option state :=
       guard (Nat.eqb n n' && Bool.eqb est blocked && negb (has_loc l pub)) (
       match ws_find l ws with
       | Some v' =>
-          guard (Nat.eqb v v') (
+          guard (Nat.eqb v v' && match hist s l j n with None => true | Some _ => false end) (
           let fresh := match mv s l j with None => true | Some e => negb (eest e) end in
           let isnew := negb (has_loc l (old_ws s j)) in
           let owe' := if fresh then dirty s owe else owe in
-          Some (set_cs (set_mv s (upd2 (mv s) l j (Some {| einc := n; eval := v; eest := est |})))
+          Some (set_cs (set_hist (set_mv (set_edom s (upd (edom s) j (l :: edom s j)))
+                                         (upd2 (mv s) l j (Some {| einc := n; eval := v; eest := est |})))
+                                 (fun l' j' n'' => if Nat.eqb l' l && Nat.eqb j' j && Nat.eqb n'' n then Some v
+                                                   else hist s l' j' n''))
                        (upd (cs s) j (Some (CExec n' (Done (ROk ws out)) log blocked (l :: pub) XPublishing owe'
                                                   (wnew || isnew))))))
       | None => None
@@ -393,15 +399,25 @@ Definition all_est (s : state) (j : nat) (ls : list loc) : bool :=
 Definition all_gone (s : state) (j : nat) (ls keep : list loc) : bool :=
   forallb (fun l => has_loc l keep || match mv s l j with None => true | Some _ => false end) ls.
 
+(* the entries of j are exactly the write set [ws], written by incarnation n, none an estimate *)
+Definition entries_match (s : state) (j n : nat) (ws : list (loc * val)) : bool :=
+  forallb (fun l => match mv s l j, ws_find l ws with
+                    | Some e, Some v => Nat.eqb (einc e) n && Nat.eqb (eval e) v && negb (eest e)
+                    | None, None => true
+                    | _, _ => false
+                    end) (edom s j)
+  && forallb (fun p => has_loc (fst p) (edom s j)) ws.
+
 Definition do_xstatus s j conflict wnew' : option state :=
   match cs s j with
   | Some (CExec n (Done r) log blocked pub XReturned owe wnew) =>
       match r with
       | ROk ws out =>
           guard (Bool.eqb conflict blocked && Bool.eqb wnew wnew' && all_gone s j (old_ws s j) (ws_locs ws)) (
+          guard (conflict || entries_match s j n ws) (
           Some (set_cs (set_st (set_res s (upd (res s) j (Some {| rlog := log; rws := ws_locs ws; rres := r |})))
                                (upd (st s) j (if conflict then Conflict else Executed)))
-                       (upd (cs s) j (Some (CExec n (Done r) log blocked pub XStatusSet owe wnew)))))
+                       (upd (cs s) j (Some (CExec n (Done r) log blocked pub XStatusSet owe wnew))))))
       | _ =>
           guard (conflict && all_est s j (old_ws s j)) (
           Some (set_cs (set_st (set_res s (upd (res s) j (Some {| rlog := []; rws := old_ws s j; rres := r |})))
@@ -447,12 +463,13 @@ Definition do_xend s j kind : option state :=
   end.
 
 Definition do_vclaim s j stc n : option state :=
+  guard (Nat.ltb j (ntx b)) (
   guard (match cs s j with None => true | Some _ => false end) (
   guard (status_eqb stc (st s j) && Nat.eqb n (inc s j)) (
   match stc with
   | Executed | Unconfirmed => Some (set_st s (upd (st s) j Validating))
   | _ => Some s
-  end)).
+  end))).
 
 Definition res_ok (s : state) (j : nat) : bool :=
   match res s j with Some {| rres := ROk _ _ |} => true | _ => false end.
